@@ -1,15 +1,206 @@
-import CalicoVerif.Model.C29
+import CalicoVerif.Proofs.C29Rule
 /-!
 C29 — Kubernetes NetworkPolicy keeps its Kubernetes meaning after conversion.
 Property theorems (helper lemmas live in `CalicoVerif.Proofs.C29*`).
+
+`k8sVerdict`  = what ONE Kubernetes NetworkPolicy says about a connection (spec);
+`calicoVerdict ∘ convert` = what the policy produced by the model of `K8sNetworkPolicyToCalico`
+says, with selectors evaluated on the labels that the models of `podToDefaultWorkloadEndpoint`,
+`NamespaceToProfile` and Felix' label inheritance give the endpoints, and the v3→v1 selector
+combination of `updateprocessors` applied.
 -/
 namespace CalicoVerif.C29
 
 /-- Masking the address of a CIDR (what `cnet.ParseCIDR(..).String()` does) never changes which
 addresses it contains. -/
-theorem contains_norm (c : Cidr) (ip : IP) : c.norm.contains ip = c.contains ip := by
-  simp only [Cidr.contains, Cidr.norm, Nat.shiftLeft_shiftRight]
+theorem contains_norm (c : Cidr) (ip : IP) : c.norm.contains ip = c.contains ip := contains_norm' c ip
 
 example : (Cidr.mk false 167772161 8).norm = Cidr.mk false 167772160 8 := by decide
+
+/-- SimplifyPorts lemma: the simplified list matches exactly the same destination ports (numeric
+ranges of any width, duplicates, overlaps, named ports), for every input list. -/
+theorem simplifyPorts_same_ports (ps : List CPort) (conn : Conn) :
+    (simplifyPorts ps).any (fun p => cportMatches p conn) = ps.any (fun p => cportMatches p conn) :=
+  simplifyPorts_any ps conn
+
+/-- … and it is empty ("all ports") only if the input was. -/
+theorem simplifyPorts_nil_iff (ps : List CPort) : simplifyPorts ps = [] ↔ ps = [] := simplifyPorts_eq_nil ps
+
+example : coalesce [80, 80, 81, 82, 84, 85, 90] = [⟨80, 82, ""⟩, ⟨84, 85, ""⟩, ⟨90, 90, ""⟩] := by decide
+
+/-- One Kubernetes rule (any peers of the four kinds, any legal ports with default protocol, named
+and ranged ports, ipBlock with exceptions) is converted without error and the generated Calico
+rules match exactly the connections the Kubernetes rule matches — both directions. -/
+theorem rule_preserves (c : Cluster) (npNs : String) (hns : npNs ≠ "") (r : KRule) (hr : r.valid)
+    (ingress : Bool) (conn : Conn) (hs : conn.src.ok) (hd : conn.dst.ok) :
+    ∃ crs, k8sRuleToCalico r.peers r.ports ingress = some crs ∧
+      crs.any (fun cr => cruleMatches c npNs cr conn) =
+        k8sRuleMatches c npNs r (if ingress then conn.src else conn.dst) conn :=
+  rule_conv c npNs hns r hr ingress conn hs hd
+
+/-- A well-formed NetworkPolicy never loses a rule in conversion. -/
+theorem convert_no_errors (np : NP) (h : np.wf) :
+    (convert np).badIngress = 0 ∧ (convert np).badEgress = 0 := by
+  obtain ⟨_, _, _, _, hbi, hbe⟩ := convert_pol_fields np
+  -- any connection will do to instantiate the rule lemma; take a trivial one
+  let conn : Conn := { src := ⟨⟨false, 0⟩, .none⟩, dst := ⟨⟨false, 0⟩, .none⟩, proto := 0, dport := 0 }
+  have hok : (⟨⟨false, 0⟩, Endpoint.none⟩ : Party).ok := trivial
+  rw [hbi, hbe]
+  exact ⟨(convertRules_sound [] np.ns h.ns true conn hok hok np.ingress h.ingress).1,
+    (convertRules_sound [] np.ns h.ns false conn hok hok np.egress h.egress).1⟩
+
+/-- MAIN THEOREM (partial: see the hypotheses `h`, `hs`, `hd`).
+For every well-formed NetworkPolicy, every cluster labelling, every connection and both
+directions, the converted Calico policy gives the same three-valued answer
+(no opinion / allow / deny-at-end-of-tier) as the Kubernetes NetworkPolicy.
+
+What keeps this from the full statement: `np.wf` contains `podKeysOK`/`nsKeysOK` (no selector key in
+Calico's reserved label space) and `Party.ok` asks that no pod carries a `pcns.`-prefixed label (and
+that a NON-pod endpoint does not carry `projectcalico.org/orchestrator=k8s`).  Without these the
+statement is false of the current code: `convert_preserves_false_pod_label`,
+`convert_preserves_false_selector_key`. -/
+theorem convert_preserves_partial (c : Cluster) (np : NP) (h : np.wf) (d : Dir) (conn : Conn)
+    (hs : conn.src.ok) (hd : conn.dst.ok) :
+    calicoVerdict c (convert np).pol d conn = k8sVerdict c np d conn := by
+  obtain ⟨hns, hsel, hin, heg, _, _⟩ := convert_pol_fields np
+  have htypes := convert_types np h.types_ne h.types
+  have hself : (conn.self d).ok := by cases d <;> assumption
+  unfold calicoVerdict k8sVerdict
+  unfold Party.ok at hself
+  dsimp only
+  cases hep : (conn.self d).ep with
+  | pod p =>
+    have hpsel : (policySelectorV1 (convert np).pol).holds (wepGet c p) =
+        (p.ns == np.ns && np.podSel.holds (lget p.labels)) := by
+      simp only [policySelectorV1, hns, h.ns, ne_eq, not_false_eq_true, if_true, hsel, CSel.holds,
+        List.all_append, List.all_cons, List.all_nil, Bool.and_true]
+      have := podSel_holds c p np.podSel h.podOps h.podKeys
+      simp only [CSel.holds] at this
+      rw [this, Bool.and_comm]
+      simp [Term.holds, wepGet_ns]
+    rw [hep] at hself
+    simp only [Endpoint.calicoGet, hpsel, htypes, hns]
+    cases d with
+    | ingress =>
+      have := (convertRules_sound c np.ns h.ns true conn hs hd np.ingress h.ingress).2
+      simp only [hin, this]
+      rfl
+    | egress =>
+      have := (convertRules_sound c np.ns h.ns false conn hs hd np.egress h.egress).2
+      simp only [heg, this]
+      rfl
+  | other l =>
+    rw [hep] at hself
+    have hfalse : (policySelectorV1 (convert np).pol).holds (lget l) = false := by
+      rw [policySelectorV1, hns, hsel, k8sSel_pod_some]
+      have : (lget l labelOrchestrator == some "k8s") = false := by simpa using hself
+      simp [h.ns, CSel.holds, Term.holds, this]
+    simp [Endpoint.calicoGet, hfalse]
+  | none => simp [Endpoint.calicoGet]
+
+/-- Several NetworkPolicies together: Kubernetes' "a selected pod may receive/send exactly what
+some selecting policy allows" equals the evaluation of the converted policies in one Calico tier
+(allow if an applying policy allows, otherwise end-of-tier deny if some policy applies). -/
+theorem convert_preserves_list_partial (c : Cluster) (nps : List NP) (h : ∀ np ∈ nps, np.wf) (d : Dir)
+    (conn : Conn) (hs : conn.src.ok) (hd : conn.dst.ok) :
+    combine (nps.map fun np => calicoVerdict c (convert np).pol d conn) =
+      combine (nps.map fun np => k8sVerdict c np d conn) := by
+  congr 1
+  apply List.map_congr_left
+  intro np hnp
+  exact convert_preserves_partial c np (h np hnp) d conn hs hd
+
+
+/-! ## Non-vacuity and the two counterexamples to the unrestricted statement -/
+
+/-- Policy in namespace "default": selects every pod, allows ingress from namespaces labelled team=a. -/
+def npW : NP :=
+  NP.mk "default" ⟨[], []⟩ [KRule.mk [Peer.mk none (some ⟨[], [⟨"team", .opIn, ["a"]⟩]⟩) none] []] [] ["Ingress"]
+
+def clW : Cluster := [("default", []), ("other", []), ("team-a", [("team", "a")])]
+def podA : Pod := Pod.mk "default" [("app", "web")] "" []
+def podGood : Pod := Pod.mk "team-a" [] "" []
+/-- a pod in namespace "other" (which has NO label team=a) that labels itself `pcns.team=a` -/
+def podSpoof : Pod := Pod.mk "other" [("pcns.team", "a")] "" []
+def connGood : Conn := Conn.mk (Party.mk ⟨false, 1⟩ (.pod podGood)) (Party.mk ⟨false, 2⟩ (.pod podA)) 6 80
+def connSpoof : Conn := Conn.mk (Party.mk ⟨false, 3⟩ (.pod podSpoof)) (Party.mk ⟨false, 2⟩ (.pod podA)) 6 80
+
+def polW : CPolicy :=
+  CPolicy.mk "default" [Term.eq labelOrchestrator "k8s"]
+    [CRule.mk none (Entity.mk [Term.eq labelOrchestrator "k8s"] [Term.inSet "team" ["a"]] [] [] []) (Entity.mk [] [] [] [] [])]
+    [] [Dir.ingress]
+
+theorem convW : (convert npW).pol = polW := by
+  simp [convert, npW, polW, convertRules, k8sRuleToCalico, k8sSelectorToCalico, sortByKey, exprTerms, peerFields,
+    simplifyPorts, List.mergeSort_nil, List.mergeSort_singleton]
+
+theorem npW_wf : npW.wf := by
+  refine ⟨by decide, by decide, by decide, ?_, ?_, ?_, ?_⟩
+  · intro e he; simp [npW] at he
+  · exact ⟨by intro kv h; simp [npW] at h, by intro e h; simp [npW] at h⟩
+  · intro r hr
+    simp only [npW, List.mem_singleton] at hr
+    subst hr
+    refine ⟨?_, by intro kp h; simp at h⟩
+    intro p hp
+    simp only [List.mem_singleton] at hp
+    subst hp
+    refine ⟨by intro s h; simp at h, ?_⟩
+    intro s hs
+    simp only [Option.some.injEq] at hs
+    subst hs
+    refine ⟨?_, by intro kv h; simp at h, ?_⟩
+    · intro e he; simp only [List.mem_singleton] at he; subst he; decide
+    · intro e he; simp only [List.mem_singleton] at he; subst he; decide
+  · intro r hr; simp [npW] at hr
+
+/-- The hypotheses of `convert_preserves_partial` are satisfiable by a non-trivial instance whose
+verdict is `allow` (and `deny` for a pod from an unlabelled namespace). -/
+example : npW.wf ∧ connGood.src.ok ∧ connGood.dst.ok ∧ k8sVerdict clW npW .ingress connGood = .allow :=
+  ⟨npW_wf, by intro kv h; simp [podGood] at h,
+    by intro kv h; simp only [podA, List.mem_singleton] at h; subst h; decide, by decide⟩
+
+example : calicoVerdict clW (convert npW).pol .ingress connGood = .allow := by rw [convW]; decide
+
+/-- COUNTEREXAMPLE 1 (pod labelling).  The NetworkPolicy is well formed, but the source pod carries
+the label `pcns.team=a`: Kubernetes denies (its namespace "other" has no label team=a), the converted
+policy allows, because a WorkloadEndpoint's own labels shadow the labels inherited from the
+namespace profile.  So "for every pod labelling" is false of the current code. -/
+theorem convert_preserves_false_pod_label :
+    ∃ (c : Cluster) (np : NP) (d : Dir) (conn : Conn), np.wf ∧ conn.dst.ok ∧
+      calicoVerdict c (convert np).pol d conn = .allow ∧ k8sVerdict c np d conn = .deny :=
+  ⟨clW, npW, .ingress, connSpoof, npW_wf,
+    by intro kv h; simp only [podA, List.mem_singleton] at h; subst h; decide,
+    by rw [convW]; decide, by decide⟩
+
+/-- Policy whose podSelector is `projectcalico.org/namespace Exists`. -/
+def npK : NP := NP.mk "default" ⟨[], [⟨labelNamespace, .opExists, []⟩]⟩ [] [] ["Ingress"]
+
+def polK : CPolicy :=
+  CPolicy.mk "default" [Term.eq labelOrchestrator "k8s", Term.has labelNamespace] [] [] [Dir.ingress]
+
+theorem convK : (convert npK).pol = polK := by
+  simp [convert, npK, polK, convertRules, k8sSelectorToCalico, sortByKey, exprTerms, List.mergeSort_nil]
+
+/-- COUNTEREXAMPLE 2 (selector key).  All pods are label-wise well formed, but the policy's
+podSelector uses the key `projectcalico.org/namespace`, which no pod carries in Kubernetes and every
+WorkloadEndpoint carries in Calico: Kubernetes says the policy does not select pod A (no opinion),
+the converted policy selects it and, having no rules, denies. -/
+theorem convert_preserves_false_selector_key :
+    ∃ (c : Cluster) (np : NP) (d : Dir) (conn : Conn), conn.src.ok ∧ conn.dst.ok ∧ np.podSel.opsOK ∧
+      calicoVerdict c (convert np).pol d conn = .deny ∧ k8sVerdict c np d conn = .noOpinion :=
+  ⟨clW, npK, .ingress, connGood, by intro kv h; simp [podGood] at h,
+    by intro kv h; simp only [podA, List.mem_singleton] at h; subst h; decide,
+    by intro e he; simp only [npK, List.mem_singleton] at he; subst he; decide,
+    by rw [convK]; decide, by decide⟩
+
+/-- Why `NP.wf` asks for defaulted policyTypes: on an object that did NOT go through API-server
+defaulting (policyTypes empty, egress rules present) the converter yields ingress only, whereas
+Kubernetes defaulting makes it [Ingress, Egress].  Unreachable through the API server. -/
+example : (convert (NP.mk "default" ⟨[], []⟩ [] [KRule.mk [] []] [])).pol.types = [.ingress] ∧
+    effTypes (NP.mk "default" ⟨[], []⟩ [] [KRule.mk [] []] []) = [.ingress, .egress] := by
+  constructor
+  · simp [convert]
+  · decide
 
 end CalicoVerif.C29
